@@ -190,8 +190,9 @@ REMOVABLE = [
     ("f", "anti", [("o", "o"), ("v", "v"), ("o", "v")], (1,)),
     ("A", "anti", [("oo", "vv"), ("ov", "ov"), ("o", "v")], (0, 1, -1)),
     ("B", "sym", [("oo", "vv"), ("o", "v"), ("ov", "ov")], (0, 1)),
-    ("X", "amp", [("v", "o"), ("vv", "oo")], (0,)),
-    ("Y", "amp", [("v", "o"), ("vv", "oo")], (0,)),
+    ("X", "amp", [("v", "o"), ("vv", "oo"), ("v", "oo"), ("vv", "o")], (0,)),
+    ("Y", "amp", [("v", "o"), ("vv", "oo"), ("v", "oo"), ("vv", "o"),
+                  ("vv", "ooo"), ("", "o"), ("v", "")], (0,)),
     ("n", "nonsym", [("ov", ""), ("oov", ""), ("oo", ""), ("ovv", "")],
      (0,)),
 ]
